@@ -5,6 +5,8 @@ semantics allows and is part of every claim made with SYMX (DESIGN.md 2.1).
 """
 from __future__ import annotations
 
+import sys
+
 import builtins
 import math
 from fractions import Fraction
@@ -622,6 +624,31 @@ def install():
     shapepy.polygon.np = NpShim()
     shapepy.curve.np = NpShim()
     _installed = True
+
+
+def uninstall():
+    """remove the stubs again (scenarios without symbolic inputs run the library as it is)"""
+    global _installed
+    import math as _math
+
+    import numpy as _np
+    import shapepy.curve
+    import shapepy.jordancurve
+    import shapepy.polygon
+    import shapepy.primitive
+    import shapepy.shape
+
+    mods = [shapepy.polygon, shapepy.curve, shapepy.jordancurve, shapepy.shape, shapepy.primitive]
+    if "shapepy.plot" in sys.modules:
+        mods.append(sys.modules["shapepy.plot"])
+    for M in mods:
+        for name in ("float", "round", "int", "set"):
+            if name in M.__dict__:
+                delattr(M, name)
+    shapepy.polygon.math = _math
+    shapepy.polygon.np = _np
+    shapepy.curve.np = _np
+    _installed = False
 
 
 def installed():
